@@ -124,7 +124,8 @@ CHECKS["C15"] = dict(
     harnesses=[
         dict(name="H15-readonly", entry="s3api.VfReadonly", reach=["returned", "handler-entered"], panic_ok=True, **_CTRL),
     ],
-    assumptions=["fiber/fasthttp request context modelled (zzvfbe): route parameters, query flags, headers, locals as set by the authentication middleware",
+    assumptions=["the ACL middleware and route handler are looked up in the registrations the real server constructor (s3api.New, S3ApiRouter.Init) makes on a recording fiber.App model",
+                 "fiber/fasthttp request context modelled (zzvfbe): route parameters, query flags, headers, locals as set by the authentication middleware",
                  "backend = recorder returning arbitrary results or errors", "XML/JSON request bodies = arbitrary value of the target type or malformed"],
     outside=["headers other than the stated set are absent", "admin API routes", "what a backend does after being called"],
 )
@@ -235,7 +236,8 @@ CHECKS["C02"] = dict(
         dict(name="H02a-deferred", pkgs=["./s3api/utils"], entry="s3api/utils.VfDeferredAuth", redirects="spec/redirects_deferred.json", reach=["drained", "accepted"]),
         dict(name="H02b-date", pkgs=["./s3api/utils"], entry="s3api/utils.VfDateWindow", redirects="spec/redirects.json", reach=["accepted", "refused"]),
     ],
-    assumptions=["CheckValidSignature / CheckPresignedSignature return an arbitrary verdict (what a correct signature is - canonical request, HMAC chain - is outside)",
+    assumptions=["the middleware chain per route is the one the real server constructor installs (s3api.New -> app.Use / S3ApiRouter.Init, executed on a recording fiber.App model); route matching itself (fiber) is not modelled",
+                 "CheckValidSignature / CheckPresignedSignature return an arbitrary verdict (what a correct signature is - canonical request, HMAC chain - is outside)",
                  "the posix backend's body consumption is modelled by the recorder hooks (reads to EOF, fails on read error; directory objects unread)",
                  "access/lock decision functions are stand-ins; time.Now is a fixed instant inside the request's validity window"],
     outside=["aws/signer/v4 (canonical request, HMAC chain, header selection in createHttpRequestFromCtx)",
